@@ -412,7 +412,8 @@ pub fn explore<F: Fn(&Ch) -> Run + Sync>(body: &F, cfg: &ExploreCfg) -> Stats {
                 break;
               }
               *slot.lock().unwrap() = Some((Instant::now(), prefix.clone()));
-              let describe = idx < 3;
+              // written-out samples: the base case plus cases deeper in the exploration
+              let describe = idx == 0 || idx == 997 || idx == 99_991 || idx == 2_999_999;
               let res = run_once(body, &prefix, describe);
               *slot.lock().unwrap() = None;
               match res {
